@@ -20,7 +20,7 @@ func init() {
 	register(&Property{
 		Meta: report.Meta{
 			Property:    "C07",
-			Explanation: "Structural necessary conditions of a lossless seal/unseal: (R1) field bijection — from toIPLD the relation 'model field is fed from token field' and from tokenFromModel the relation 'token field is fed from model field' are extracted from the stores on every success path; they must be mutually inverse bijections over ALL fields of the Token struct and of the payload model, the model's fields must be the schema's fields, and optional/nullable schema fields must have nilable Go types; (R2) codec pairing — functions named *DagCbor* only reference dagcbor codec functions, *DagJson* only dagjson, sealed variants only DAG-CBOR; (R3) key-algorithm tables — multicodecs FromPubKey emits are accepted by Parse and have unmarshallers, key types have varsig headers; (R4) writer/reader bound agreement — every *time.Time field that toIPLD serialises is, in validate(), rejected beyond +/-(2^53-1) seconds exactly as parse.OptionalTimestamp rejects it on decode; (R5) validator symmetry — what the decoder validates (command grammar, policy integers, argument integers) validate() checks on construction too; (R6) the generic decoder dispatches to the typed decoders by their Tag constants. (R8) ordered containers: in packages args and meta, on every path a key is appended to X.Keys exactly when the path knows it to be absent from X.Values and stores a value under it (a key listed twice is sealed as a repeated map key that every decoder rejects). Equality of the round-tripped values themselves is a runtime-value clause and is not decided. validate may look at a *time.Time bound only through nil tests and Unix() (what the wire keeps); the Values map of an Args / Meta is made or cloned, never another container's map. The header written by envelope.ToIPLD is result #0 of a successful varsig.Encode(Type() of the signing key) on every sealing path, and the variable holding it is not written again. (R5) every failing exit of policy.FromIPLD / statementFromIPLD / statementsFromIPLD is selected by a fact that mentions the node being decoded. (R2) the float case of the JSON encoder that dagjson.Encode reaches (refmt json emitFloat, read from the module cache as part of the type-checked program) must contain a fraction marker constant, or a function of the module reachable from the DAG-JSON entry point must test for Kind_Float / call AsFloat.",
+			Explanation: "Structural necessary conditions of a lossless seal/unseal: (R1) field bijection — from toIPLD the relation 'model field is fed from token field' and from tokenFromModel the relation 'token field is fed from model field' are extracted from the stores on every success path; they must be mutually inverse bijections over ALL fields of the Token struct and of the payload model, the model's fields must be the schema's fields, and optional/nullable schema fields must have nilable Go types; (R2) codec pairing — functions named *DagCbor* only reference dagcbor codec functions, *DagJson* only dagjson, sealed variants only DAG-CBOR; (R3) key-algorithm tables — multicodecs FromPubKey emits are accepted by Parse and have unmarshallers, key types have varsig headers; (R4) writer/reader bound agreement — every *time.Time field that toIPLD serialises is, in validate(), rejected beyond +/-(2^53-1) seconds exactly as parse.OptionalTimestamp rejects it on decode; (R5) validator symmetry — what the decoder validates (command grammar, policy integers, argument integers) validate() checks on construction too; (R6) the generic decoder dispatches to the typed decoders by their Tag constants. (R8) ordered containers: in packages args and meta, on every path a key is appended to X.Keys exactly when the path knows it to be absent from X.Values and stores a value under it (a key listed twice is sealed as a repeated map key that every decoder rejects). Equality of the round-tripped values themselves is a runtime-value clause and is not decided. validate may look at a *time.Time bound only through nil tests and Unix() (what the wire keeps); the Values map of an Args / Meta is made or cloned, never another container's map. The header written by envelope.ToIPLD is result #0 of a successful varsig.Encode(Type() of the signing key) on every sealing path, and the variable holding it is not written again. (R5) every failing exit of policy.FromIPLD / statementFromIPLD / statementsFromIPLD is selected by a fact that mentions the node being decoded. (R2) the float case of the JSON encoder that dagjson.Encode reaches (refmt json emitFloat, read from the module cache as part of the type-checked program) must contain a fraction marker constant, or a function of the module reachable from the DAG-JSON entry point must test for Kind_Float / call AsFloat. (R5) Args.Add / Meta.Add store a node only on paths with the fact Kind() != Kind_Null; every link built in literal.Any / anyAssemble is built on a path with Defined() true; invocation.validate (and helpers its code moved into) calls Defined on the cause and applies a Defined predicate to the proof list; no function reachable from toIPLD calls time.Now / Since / Until. (R6) static calls from package token into token/delegation and token/invocation are FromIPLD only. (R2) refmt emitString contains the constant \\ufffd and dagjson linkLookahead the constant /: unless module code reachable from the DAG-JSON entry points calls unicode/utf8.Valid* resp. compares with \"/\", the obligations fail (known findings).",
 			Assumptions: []string{"go-ipld-prime codecs and bindnode are lossless for the bound types (the float rendering of the JSON codec is not assumed: C07.R2 json-float-fidelity inspects it)", "time.Unix / Time.Unix are inverse at whole-second resolution"},
 			Trusted:     []string{"go-ipld-prime (dagcbor, dagjson, bindnode)", "golang.org/x/tools/go/ssa v0.29.0"},
 			NotDecided:  []string{"equality of round-tripped field values (runtime values)", "non-finite floats in arguments (excluded by the statement)"},
@@ -31,10 +31,10 @@ func init() {
 
 func runC07(x *Ctx) {
 	x.C.Rule("C07.R1", "field bijection token <-> model <-> schema; optional fields serialised exactly when set", 8)
-	x.C.Rule("C07.R2", "codec pairing by function name; floats survive the DAG-JSON form", 6)
+	x.C.Rule("C07.R2", "codec pairing by function name; floats, strings and maps keyed \"/\" survive the DAG-JSON form", 14)
 	x.C.Rule("C07.R3", "key-algorithm tables; the header sealed is the one the verifier expects", 4)
 	x.C.Rule("C07.R4", "constructors bound every serialised timestamp like the decoder; validate reads time bounds at wire resolution", 11)
-	x.C.Rule("C07.R5", "construct-side counterparts of decode-side validators; the policy decoder refuses only for what the document holds; sealing does not read the clock", 10)
+	x.C.Rule("C07.R5", "construct-side counterparts of decode-side validators; the policy decoder refuses only for what the document holds; sealing does not read the clock; top-level nulls and undefined CIDs are refused", 14)
 	x.C.Rule("C07.R6", "generic decoder = typed decoders, chosen from the decoded envelope", 2)
 	x.C.Rule("C07.R7", "encoders return the codec's fresh output", 3)
 	x.C.Rule("C07.R8", "ordered containers (Args, Meta): a key is appended to the key list exactly when it is new in the map; ToIPLD assembles every key", 5)
@@ -134,7 +134,9 @@ func runC07(x *Ctx) {
 	decodeOnlyValidators(x)
 	documentDecides(x)
 	jsonFloatFidelity(x)
+	jsonTextFidelity(x)
 	noClockOnSealing(x)
+	unreadableValuesRefused(x)
 	typedDecodersThroughFromIPLD(x)
 	freshEncoderOutput(x)
 
@@ -658,6 +660,87 @@ func jsonFloatFidelity(x *Ctx) {
 		}
 		x.C.Obl("C07.R2", "json-float-fidelity:"+name, x.pos(f), "a float in an Any-typed field survives the DAG-JSON form: the JSON encoder keeps a fraction marker, or the module looks at float nodes before encoding",
 			marker || looks != "", "refmt/json.(*Encoder).emitFloat ("+x.P.Pos(emit.Pos())+") formats with strconv.AppendFloat(b, f, 'f', -1, 64) and never adds a fraction marker: 2.0 is written as 2, read back as the integer 2, and the signature made over the float no longer verifies (WithArgument(\"x\", 2.0) then ToDagJson then FromDagJson: \"failed to verify the token's signature\"); no function of the module reachable from here looks at float nodes")
+	}
+}
+
+// jsonTextFidelity (C07.R2): two more places where the DAG-JSON form does not carry what the DAG-CBOR form (over which
+// the signature is made) carries, both read off the dependency's code as loaded:
+//   - strings: refmt's emitString replaces every byte sequence that is not valid UTF-8 by \ufffd (the constant is
+//     looked for in the function); a string with such bytes is read back as another string and the signature fails;
+//   - the reserved key: dagjson's decoder looks one token ahead for the key "/" (linkLookahead / bytesLookahead test
+//     the constant) and reads {"/": ...} as a link or as bytes, while its encoder writes a map with that single key
+//     as it is: a map {"/": "x"} in an Any-typed field cannot be read back.
+// Each obligation holds for an entry point when the dependency does not behave so, or when the module's code
+// reachable from the entry point looks at strings with unicode/utf8 (resp. compares a key with "/") before encoding.
+func jsonTextFidelity(x *Ctx) {
+	hasStringConst := func(f *ssa.Function, want string) bool {
+		if f == nil {
+			return false
+		}
+		for _, b := range f.Blocks {
+			for _, in := range b.Instrs {
+				for _, op := range in.Operands(nil) {
+					if c, ok := (*op).(*ssa.Const); ok && c.Value != nil && c.Value.Kind() == constant.String && constant.StringVal(c.Value) == want {
+						return true
+					}
+				}
+			}
+		}
+		return false
+	}
+	method := func(pkg, typ, name string) *ssa.Function {
+		sp := x.P.SSA[pkg]
+		if sp == nil {
+			return nil
+		}
+		tn := sp.Type(typ)
+		if tn == nil {
+			return nil
+		}
+		ms := x.P.Prog.MethodSets.MethodSet(types.NewPointer(tn.Type()))
+		for i := 0; i < ms.Len(); i++ {
+			if ms.At(i).Obj().Name() == name {
+				return x.P.Prog.MethodValue(ms.At(i))
+			}
+		}
+		return nil
+	}
+	emitString := method("github.com/polydawn/refmt/json", "Encoder", "emitString")
+	look := method("github.com/ipld/go-ipld-prime/codec/dagjson", "unmarshalState", "linkLookahead")
+	if emitString == nil || look == nil {
+		x.C.Unresolved("C07.R2", "anchor:json-text-fidelity", "-", "refmt/json.(*Encoder).emitString or dagjson.(*unmarshalState).linkLookahead not found in the type-checked program (dependency changed?)")
+		return
+	}
+	replaces := hasStringConst(emitString, `\ufffd`)
+	reserved := hasStringConst(look, "/")
+	for _, name := range []string{"(*token/delegation.Token).ToDagJson", "(*token/delegation.Token).ToDagJsonWriter", "(*token/invocation.Token).ToDagJson", "(*token/invocation.Token).ToDagJsonWriter"} {
+		f := x.fn("C07.R2", name)
+		if f == nil {
+			continue
+		}
+		looksUTF8, looksKey := false, false
+		for g := range x.P.ReachFrom(f) {
+			for _, b := range g.Blocks {
+				for _, in := range b.Instrs {
+					if c, ok := in.(ssa.CallInstruction); ok {
+						if h := c.Common().StaticCallee(); h != nil && h.Pkg != nil && h.Pkg.Pkg.Path() == "unicode/utf8" && strings.HasPrefix(h.Name(), "Valid") {
+							looksUTF8 = true
+						}
+					}
+					if bo, ok := in.(*ssa.BinOp); ok {
+						for _, o := range []ssa.Value{bo.X, bo.Y} {
+							if c, ok := o.(*ssa.Const); ok && c.Value != nil && c.Value.Kind() == constant.String && constant.StringVal(c.Value) == "/" && !strings.HasSuffix(x.P.PkgPathOf(g), "/pkg/command") {
+								looksKey = true
+							}
+						}
+					}
+				}
+			}
+		}
+		x.C.Obl("C07.R2", "json-string-fidelity:"+name, x.pos(f), "a string in an Any-typed field survives the DAG-JSON form: the JSON encoder writes its bytes, or the module looks at strings with unicode/utf8 before encoding",
+			!replaces || looksUTF8, "refmt/json.(*Encoder).emitString ("+x.P.Pos(emitString.Pos())+") writes \\ufffd for every byte sequence that is not valid UTF-8: WithArgument(\"x\", \"a\\xffb\") is sealed to DAG-JSON as another string and FromDagJson fails with \"failed to verify the token's signature\" (DAG-CBOR carries the bytes as they are); no function of the module reachable from here validates strings")
+		x.C.Obl("C07.R2", "json-reserved-key:"+name, x.pos(f), "a map with the single key \"/\" in an Any-typed field survives the DAG-JSON form: the decoder does not reserve the key, or the module looks for it before encoding",
+			!reserved || looksKey, "dagjson.(*unmarshalState).linkLookahead ("+x.P.Pos(look.Pos())+") reads {\"/\": ...} as a link (or bytes): WithArgument(\"x\", map[string]any{\"/\": \"hello\"}) is sealed to DAG-JSON and FromDagJson fails with \"invalid cid\"; no function of the module reachable from here looks for the key")
 	}
 }
 
